@@ -70,12 +70,15 @@ static void h_run_callee_case (const h_case_t *c) {
   h_ext_calls = 0;
   sc_assign_args (c->nargs, c->args, &locs);
   H_ASSERT (locs.ok && sc_assign_results (c->nres, c->res, reslocs), "prototype is inside the oracle's domain");
-  H_ASSERT (8 + locs.stack_bytes + 16 <= 8 * H_CALLER_WORDS, "harness stack holds the memory arguments");
+  /* words of the caller's frame that are made symbolic and compared afterwards: return address, the memory
+     arguments and four words beyond (bounded by the prototype, keeps the query small) */
+  unsigned ncw = 1 + locs.stack_bytes / 8 + 4;
+  H_ASSERT (ncw <= H_CALLER_WORDS, "harness stack holds the memory arguments");
   h_nregions = 0;
   h_map (H_STACK_BASE, 8 * H_STACK_WORDS, h_stack);
   h_map (LIFT_SYM_buf, sizeof (h_buf), h_buf);
   h_enter (&s); /* all registers symbolic */
-  for (unsigned i = H_STACK_BELOW + 1; i < H_STACK_WORDS; i++) h_stack[i] = nd (); /* caller's frame incl. stack arguments */
+  for (unsigned i = 1; i < ncw; i++) h_stack[H_STACK_BELOW + i] = nd (); /* caller's frame incl. stack arguments */
   /* where the oracle puts each argument is where its (already symbolic) value is taken from */
   for (unsigned i = 0; i < c->nargs; i++) {
     const sc_loc_t *l = &locs.arg[i];
@@ -85,13 +88,13 @@ static void h_run_callee_case (const h_case_t *c) {
         h_arg_blk[i][k] = l->cls[0] == SC_CL_MEM ? X86_M64 (first + l->stack_off + 8 * k)
                           : l->cls[k] == SC_CL_INT ? s.r[sc_int_arg_reg[l->reg[k]]] : s.xmm[l->reg[k]][0];
     } else if (t == SC_LD) {
-      h_arg_ld[i] = h_ld_of_bits (nd (), nd ());
+      h_arg_ld[i] = h_ld_nd ();
       x86_ld_store (first + l->stack_off, h_arg_ld[i]);
     } else
       h_arg_raw[i] = l->cls[0] == SC_CL_MEM ? X86_M64 (first + l->stack_off) : l->cls[0] == SC_CL_INT ? s.r[sc_int_arg_reg[l->reg[0]]] : s.xmm[l->reg[0]][0];
   }
   if (c->vararg) { s.r[0] = (s.r[0] & ~(uint64_t) 0xff) | locs.n_sse; h_in.r[0] = s.r[0]; } /* %al as the ABI requires of the caller */
-  for (unsigned i = 0; i < H_CALLER_WORDS; i++) h_caller_frame[i] = h_stack[H_STACK_BELOW + i];
+  for (unsigned i = 0; i < ncw; i++) h_caller_frame[i] = h_stack[H_STACK_BELOW + i];
   /* inputs the body reads from buf */
   for (unsigned j = 0; j < c->k_live; j++) H_BUF (CB_LIVE_IN + 8 * j) = nd ();
   H_BUF (CB_ASIZE) = H_ALLOCA_VAR;
@@ -99,7 +102,7 @@ static void h_run_callee_case (const h_case_t *c) {
   long double res_ld[SC_MAX_RES];
   for (unsigned j = 0; j < c->nres; j++) {
     H_BUF (CB_RES + 16 * j) = nd ();
-    if (c->res[j] == SC_LD) { res_ld[j] = h_ld_of_bits (nd (), nd ()); x86_ld_store (LIFT_SYM_buf + CB_RES + 16 * j, res_ld[j]); nld++; }
+    if (c->res[j] == SC_LD) { res_ld[j] = h_ld_nd (); x86_ld_store (LIFT_SYM_buf + CB_RES + 16 * j, res_ld[j]); nld++; }
   }
 
   H_ASSERT (lift_dispatch (&s, c->lift_addr), "lifted function exists");
@@ -108,7 +111,7 @@ static void h_run_callee_case (const h_case_t *c) {
   H_ASSERT (h_callee_saved_ok (&s), "rbx rbp r12-r15 preserved");
   H_ASSERT (s.mxcsr == h_in.mxcsr && s.fcw == h_in.fcw, "MXCSR and the x87 control word are as at entry");
   H_ASSERT (h_ext_calls == c->has_call, "the inner call happens exactly when the body has one");
-  for (unsigned i = 0; i < H_CALLER_WORDS; i++) {
+  for (unsigned i = 0; i < ncw; i++) {
     /* the callee owns its memory-class arguments; everything else above the return address is the caller's */
     H_ASSERT (h_stack[H_STACK_BELOW + i] == h_caller_frame[i], "the caller's frame (return address, stack arguments and above) is not written");
   }
